@@ -23,6 +23,14 @@ func init() {
 	extractors["C14"] = func(o *Out) {
 		f := o.ParseFile("chains/evm/executor/executor.go")
 		fd := FindFunc(f, "Executor", "proposalBatches")
+		if fd == nil && f != nil { // renamed: the method of Executor that returns ([]*Batch, error)
+			for _, d := range f.Decls {
+				if m, ok := d.(*ast.FuncDecl); ok && m.Recv != nil && m.Type.Results != nil && Src(m.Type.Results) == "([]*Batch, error)" &&
+					strings.HasSuffix(Src(m.Recv.List[0].Type), "Executor") {
+					fd = m
+				}
+			}
+		}
 		cond, condOK := "false", false
 		order := []string{}
 		recv := "e"
@@ -55,12 +63,17 @@ func init() {
 		}
 		if fd != nil {
 			Walk(fd.Body, func(n ast.Node) bool {
-				rs, ok := n.(*ast.RangeStmt)
-				if !ok {
+				var body *ast.BlockStmt
+				switch l := n.(type) {
+				case *ast.RangeStmt:
+					body = l.Body
+				case *ast.ForStmt:
+					body = l.Body
+				default:
 					return true
 				}
 				cb, gsrc := "", ""
-				for _, st := range rs.Body.List {
+				for _, st := range body.List {
 					if x, y, ok := gasAdd(st); ok {
 						cb, gsrc = x, Src(y)
 					}
@@ -69,7 +82,7 @@ func init() {
 					return false
 				}
 				o.Facts["current_batch_var"] = cb
-				for _, st := range rs.Body.List {
+				for _, st := range body.List {
 					if _, _, ok := gasAdd(st); ok {
 						order = append(order, "gas-add")
 						continue
@@ -101,10 +114,17 @@ func init() {
 		}
 		o.Facts["rollover_translated"] = condOK
 		o.Facts["order"] = order
+		if !condOK {
+			o.Unavailable("rollover", "the roll-over test of the batching loop was not located in a shape the translator understands")
+		}
+		orderOK := len(order) == 3
+		if !orderOK {
+			o.Unavailable("order", "roll-over test, gas addition and append are not three top-level statements of one loop body")
+		}
 		o.Lean.WriteString("/-- roll-over test of `proposalBatches` (n = len(currentBatch.proposals), uint64 sums not yet reduced) -/\n")
-		o.Lean.WriteString("def rollover (n gas g cap : Nat) : Bool := " + cond + "\n\n")
+		o.Lean.WriteString("def rollover : Option (Nat → Nat → Nat → Nat → Bool) := " + LeanOpt(condOK, "fun n gas g cap => "+cond) + "\n\n")
 		o.Lean.WriteString("/-- order of the three statements of the loop body -/\n")
-		o.Lean.WriteString("def order : List String := " + LeanStrList(order) + "\n\n")
+		o.Lean.WriteString("def order : Option (List String) := " + LeanOpt(orderOK, LeanStrList(order)) + "\n\n")
 
 		// session id: <v> := fmt.Sprintf(<fmt>, <message id>, <K>) inside the `for K, … := range` of Execute.
 		// K is a per-iteration value if the body re-declares it (`K := K`) before the goroutines start, or if the
@@ -144,12 +164,16 @@ func init() {
 		}
 		o.Facts["session_fmt"] = sfmt
 		o.Facts["session_index_copied_per_iteration"] = copied
-		o.Lean.WriteString("def sessionFmt : String := " + LeanStr(sfmt) + "\n")
-		if copied || perIter {
-			o.Lean.WriteString("def sessionIndexCopied : Bool := true\n")
-		} else {
-			o.Lean.WriteString("def sessionIndexCopied : Bool := false\n")
+		sessOK := sfmt != ""
+		if !sessOK {
+			o.Unavailable("session", "no fmt.Sprintf(<literal>, <message id>, <range index>) found inside a range loop of Execute")
 		}
+		o.Lean.WriteString("/-- (format string, index is a per-iteration value) of the session id built in `Execute` -/\n")
+		b := "false"
+		if copied || perIter {
+			b = "true"
+		}
+		o.Lean.WriteString("def session : Option (String × Bool) := " + LeanOpt(sessOK, LeanStr(sfmt)+", "+b) + "\n")
 	}
 }
 
